@@ -366,7 +366,12 @@ def run(chk):
                        'slices and the zero-equilibrium composition are Lean theorems; that FFTPACK computes the DFT, the sparse solves and '
                        'the distributed layout changes are covered by the correspondence run of the real pipeline (dense DFT oracle, exact '
                        'Galerkin residual w.r.t. the model operator, independent dense numpy solve per mode)')
-    chk.proof_side(build=not getattr(chk, 'no_build', False))
+    # theorems about the loop REGENERATED from fullSimulation.py: run the translator first
+    import subprocess as _sp
+    _tr = _sp.run(['/venv/bin/python', str(common.VERIF / 'harness' / 'translate_driver.py'), '--repo', str(common.REPO)], capture_output=True, text=True)
+    if _tr.returncode != 0:
+        chk.proof_broken.append({'theorem': 'translator (harness/translate_driver.py) refused the source of the time loop', 'log': (_tr.stdout + _tr.stderr)[-800:]})
+    chk.proof_side(build=not getattr(chk, 'no_build', False), extra_props=('C15Extra',))
     common.use_repo()
     drv = common.LeanDriver('C14.lean')
     stats = {'fft': 0.0, 'roundtrip': 0.0, 'oracle': 0.0, 'residual': 0.0, 'imag': 0.0}
